@@ -3,6 +3,7 @@ package monitor
 import (
 	"fmt"
 	"math/big"
+	"sort"
 	"strings"
 
 	sdk "github.com/cosmos/cosmos-sdk/types"
@@ -170,7 +171,18 @@ func (c *Checker) checkUpdateFold(m *market.MsgUpdateSellOrders) {
 				id, seen[id], po.Qty.Raw, po.AskRaw, denom, po.Exp, ratStr(r.qty), r.ask, r.denom, r.exp), map[string]interface{}{"pre": pre.Row, "post": po.Row})
 		}
 	}
-	for k, d := range delta {
+	dks := make([]BalKey, 0, len(delta))
+	for k := range delta {
+		dks = append(dks, k)
+	}
+	sort.Slice(dks, func(i, j int) bool {
+		if dks[i].Batch != dks[j].Batch {
+			return dks[i].Batch < dks[j].Batch
+		}
+		return dks[i].Acct < dks[j].Acct
+	})
+	for _, k := range dks {
+		d := delta[k]
 		p, q := c.pre.Bal(k.Acct, k.Batch), c.post.Bal(k.Acct, k.Batch)
 		if sub(q.E.val(), p.E.val()).Cmp(d) != 0 || sub(p.T.val(), q.T.val()).Cmp(d) != 0 {
 			c.report("C06", "update-escrow-delta", fmt.Sprintf("%s batch %d: the updates change the open quantity by %s, escrow moved %s -> %s and tradable %s -> %s", k.Acct, k.Batch, ratStr(d), p.E.Raw, q.E.Raw, p.T.Raw, q.T.Raw),
